@@ -9,6 +9,7 @@ package calcium
 
 import (
 	"context"
+	"fmt"
 
 	"github.com/cockroachdb/errors"
 
@@ -37,6 +38,7 @@ type vWorld struct {
 	repair        bool                    // GetNodeResourceInfo(fix=true) repairs usage
 	siteFaults    map[string]map[int]bool // two-fault mode: site -> failing occurrences
 	siteCalls     map[string]int
+	posSiteCalls  map[string]int // positional mode: calls per site so far (for the replay hint)
 	closedStreams int
 	exitCode      int
 	applied       map[string]int // container id -> amount the engine applied
@@ -48,6 +50,8 @@ type vWorld struct {
 	countStatus   bool            // GetDeployStatus answers with recorded + in-progress counts (C13)
 	onStep        func()          // observer called at every intercepted call (C13)
 	planned       map[string]int  // node -> instances the deployment asked the resource manager for
+	allocSeq      int             // allocations handed out so far
+	returned      map[string]bool // allocations given back through RollbackAlloc
 	removalBegan  bool            // some workload's removal has released its usage (the removal phase has begun)
 	delRefused    map[string]bool // nodes whose DeleteProcessing was the injected failure
 }
@@ -74,7 +78,18 @@ func (w *vWorld) fault(site string) bool {
 	}
 	w.calls++
 	w.sites = append(w.sites, site)
-	if w.calls == w.faultAt {
+	if w.posSiteCalls == nil {
+		w.posSiteCalls = map[string]int{}
+	}
+	w.posSiteCalls[site]++
+	hit := w.calls == w.faultAt
+	if h := vHintGet("fault_hint"); h != "" && w.faultAt > 0 {
+		// native replay: the global position of a call depends on the goroutine order; the
+		// symbolic run noted WHICH call failed as "<site>#<occurrence of that site>"
+		hit = h == fmt.Sprintf("%s#%d", site, w.posSiteCalls[site]) && w.site == ""
+	}
+	if hit {
+		vHint("fault_hint", fmt.Sprintf("%s#%d", site, w.posSiteCalls[site]))
 		w.site = site
 		w.leakRegion = w.allocsOK > 0 && !w.createSeen
 		if w.crashMode {
@@ -99,6 +114,16 @@ func vAmount(r resourcetypes.Resources) int {
 
 func vRes(amount int) resourcetypes.Resources {
 	return resourcetypes.Resources{"m": resourcetypes.RawParams{"amount": amount}}
+}
+
+// vSlot: which allocation (node + sequence number) a resources value stands for; "" if none.
+// Real allocations differ per instance (cores, volumes); the tag keeps them apart in the scalar ledger.
+func vSlot(r resourcetypes.Resources) string {
+	if p, ok := r["m"]; ok {
+		s, _ := p["slot"].(string)
+		return s
+	}
+	return ""
 }
 
 // ---- resource manager model ----
@@ -185,7 +210,11 @@ func (m *vRmgr) Alloc(_ context.Context, node string, count int, opts resourcety
 	vMu.Unlock()
 	var rs, es []resourcetypes.Resources
 	for i := 0; i < count; i++ {
-		rs = append(rs, vRes(vAmount(opts)))
+		m.w.allocSeq++
+		slot := fmt.Sprintf("%s#%d", node, m.w.allocSeq)
+		r := vRes(vAmount(opts))
+		r["m"]["slot"] = slot
+		rs = append(rs, r)
 		es = append(es, vRes(vAmount(opts)))
 	}
 	total := 0
@@ -209,6 +238,12 @@ func (m *vRmgr) RollbackAlloc(_ context.Context, node string, ws []resourcetypes
 	sum := 0
 	for _, r := range ws {
 		sum += vAmount(r)
+		if s := vSlot(r); s != "" {
+			if m.w.returned == nil {
+				m.w.returned = map[string]bool{}
+			}
+			m.w.returned[s] = true
+		}
 	}
 	m.w.addUsage(node, -sum)
 	return nil
